@@ -1659,7 +1659,15 @@ func (rn *runner) envCampaign(m *hlib.Model, n int) {
 			"DNSCHECK_CACHE_KV_SIZE, REDIS_ADDR set, REDIS_IDLE_TIMEOUT (ns), REDIS_MAX_ACTIVE, REDIS_MAX_IDLE"}
 		v, perr := cmd.VerifC20Parse(k.render())
 		hlib.Must(perr)
-		hlib.Must(v.VerifC20Validate())
+		if verr0 := v.VerifC20Validate(); verr0 != nil {
+			// Every value of these files meets its documented constraint.
+			replay["real_error"] = verr0.Error()
+			r.Violate("rejected-without-offender", "validation rejects a configuration in which every value meets its "+
+				"documented constraint: "+verr0.Error(), replay)
+			r.Case(canon+" | "+e.line(), true)
+
+			continue
+		}
 		env := &cmd.VerifC20Env{
 			ConsulAllowlistURL:  pickURL(e.consulURL, httpURL, grpcURL),
 			BackendRateLimitURL: pickURL(e.rlURL, grpcURL, httpURL),
@@ -1848,6 +1856,19 @@ func main() {
 		rn.envCampaign(m, 2400)
 	} else {
 		rn.envCampaign(m, 320)
+	}
+
+	// Structure of the tree: server groups rebuilt from scratch and every node
+	// of the example set to null, removed or emptied, through the real builder
+	// steps of Main.
+	sc := newScratch()
+	defer os.RemoveAll(sc.dir)
+	if o.Thorough() {
+		rn.shapeCampaign(sc, m, 6000)
+		rn.pruneCampaign(sc, 3000)
+	} else {
+		rn.shapeCampaign(sc, m, 500)
+		rn.pruneCampaign(sc, 200)
 	}
 
 	// The distributed example itself.
